@@ -150,13 +150,114 @@ END SUB
 }
 
 
+# Generated declaration lists: every ordered pair (and a seeded sample of
+# triples) of declaration kinds, in three scopes.  Array lower bounds are
+# placeholders (made symbolic by check_layout); extents are part of the kind,
+# so that two arrays of the SAME record type with DIFFERENT extents occur in
+# both orders.
+DECL_KINDS = [
+    ('si', '{n} AS INTEGER'), ('ss', '{n} AS STRING'),
+    ('rp', '{n} AS pt'), ('rs', '{n} AS sgm'),
+    ('al', '{n}({b} TO {b2}) AS LONG'),
+    ('a2', '{n}({b} TO {b1}, {c} TO {c2}) AS INTEGER'),
+    ('ap2', '{n}({b} TO {b1}) AS pt'), ('ap4', '{n}({b} TO {b3}) AS pt'),
+    ('as3', '{n}({b} TO {b2}) AS sgm'),
+    ('ap22', '{n}({b} TO {b1}, {c} TO {c1}) AS pt'),
+    ('dyn', '{n}({v} TO {v} + 2) AS pt'),
+]
+_TYPES_TEXT = '''TYPE pt
+  x AS INTEGER
+  y AS LONG
+END TYPE
+TYPE sgm
+  a AS pt
+  b AS pt
+  n AS STRING
+END TYPE
+'''
+
+
+def _decl(kind_idx, k):
+    base = 100 * (k + 1)
+    return DECL_KINDS[kind_idx][1].format(
+        n='v%d' % k, b=base, b1=base + 1, b2=base + 2, b3=base + 3,
+        c=base + 50, c1=base + 51, c2=base + 52, v='n0')
+
+
+def gen_layout_program(scope, kinds):
+    """scope: 'main' | 'sub' | 'shared' | 'static'."""
+    decls = [_decl(ki, k) for k, ki in enumerate(kinds)]
+    has_dyn = any(DECL_KINDS[ki][0] == 'dyn' for ki in kinds)
+    if has_dyn and scope in ('shared', 'static'):
+        return None
+    t = _TYPES_TEXT
+    if scope == 'main':
+        t += 'n0 = 7\n' + ''.join('DIM %s\n' % d for d in decls) + 'z9 = 1\n'
+    elif scope == 'shared':
+        t += ''.join('DIM SHARED %s\n' % d for d in decls) + \
+            'CALL work\nSUB work\n  z9 = 1\nEND SUB\n'
+    elif scope == 'sub':
+        t += 'CALL work(1, 2)\nSUB work (p%, q AS LONG)\n  n0 = 7\n' + \
+            ''.join('  DIM %s\n' % d for d in decls) + \
+            '  z9 = p%\nEND SUB\n'
+    else:
+        t += 'CALL work\nSUB work\n' + \
+            ''.join('  STATIC %s\n' % d for d in decls) + \
+            '  z9 = 1\nEND SUB\n'
+    return t
+
+
+def generated_layouts(tier, seed=0):
+    import hashlib
+    import itertools
+    n = len(DECL_KINDS)
+    out = {}
+    for scope in ('main', 'sub', 'shared', 'static'):
+        combos = list(itertools.product(range(n), repeat=2))
+        triples = [c for c in itertools.product(range(n), repeat=3)
+                   if hashlib.sha256(repr((c, scope, seed)).encode())
+                   .digest()[0] % (8 if tier != 'quick' else 64) == 0]
+        for kinds in combos + triples:
+            if tier == 'quick' and len(kinds) == 2 and hashlib.sha256(
+                    repr((kinds, scope, seed)).encode()).digest()[0] % 3:
+                # quick: a seeded third of the pairs -- but always the
+                # same-record-type pairs
+                names = {DECL_KINDS[k][0] for k in kinds}
+                if not (len(names) == 2 and names <= {'ap2', 'ap4', 'ap22',
+                                                      'dyn'}):
+                    continue
+            text = gen_layout_program(scope, kinds)
+            if text is None:
+                continue
+            name = 'gen_%s_%s' % (scope, '_'.join(DECL_KINDS[k][0]
+                                                  for k in kinds))
+            out[name] = text
+    return out
+
+
+def program_text(name):
+    if name in LAYOUT_PROGRAMS:
+        return LAYOUT_PROGRAMS[name]
+    # 'gen_<scope>_<kind>_<kind>...': regenerate from the name
+    parts = name.split('_')
+    assert parts[0] == 'gen', name
+    codes = [k[0] for k in DECL_KINDS]
+    return gen_layout_program(parts[1], [codes.index(c) for c in parts[2:]])
+
+
+def register_generated(tier, seed=0):
+    g = generated_layouts(tier, seed)
+    LAYOUT_PROGRAMS.update(g)
+    return list(g)
+
+
 def _compile(name):
     if name in _compiled:
         return _compiled[name]
     with NoTracing():
         comp = Compiler(codegen_name='qvm', optimization_level=0,
                         debug_info=False)
-        code = comp.compile(LAYOUT_PROGRAMS[name])
+        code = comp.compile(program_text(name))
         compilation = comp._compilation
         _compiled[name] = (code, compilation)
     return _compiled[name]
@@ -172,6 +273,9 @@ def _array_dims(compilation):
         for t in types:
             if t.is_array and t.array_dims:
                 for d in t.array_dims:
+                    if not (hasattr(d.lbound, 'value') and
+                            hasattr(d.ubound, 'value')):
+                        continue      # dynamic bounds: not literals
                     if id(d) not in seen:
                         seen.add(id(d))
                         out.append(d)
@@ -206,6 +310,31 @@ def check_layout(name, lbs):
         for d, lo, hi in saved:
             d.lbound.value = lo
             d.ubound.value = hi
+
+
+def check_layout_native(name):
+    return check_layout(name, [])
+
+
+def check_layouts_concrete(tier, seed=0):
+    """Encoding validation: every layout program with its concrete
+    placeholder bounds, executed natively.  CrossHair replaces
+    functools.lru_cache wrappers by their wrapped function (its
+    functoolslib patch), so state kept in such caches is invisible to the
+    symbolic run; the native run sees the real thing."""
+    names = list(LAYOUT_PROGRAMS) + [n for n in generated_layouts(tier, seed)
+                                     if n not in LAYOUT_PROGRAMS]
+    for name in names:
+        code, comp = _compile(name)
+        dims = _array_dims(comp)
+        lbs = [d.lbound.value for d in dims]
+        if check_layout(name, lbs) != 1:
+            FAILED.append(name)
+            return 0
+    return 1
+
+
+FAILED = []
 
 
 def _layout_ok(code, comp):
